@@ -8,7 +8,7 @@ V = os.path.dirname(os.path.dirname(os.path.abspath(__file__)))
 CHECKS = {
  "C04": ("exploration",
          "exhaustive enumeration of the (type, width, value, literal form) boundary table against the closed-form ranges of the statement, plus proptest sampling of wide types",
-         "Complete enumeration of every (uN/sN/iN/#dN, N <= 16, v in [-2^N-4, 2^N+4]) (quick: complete to N = 13, boundary neighbourhoods above) and of #dN with sized literals of every width, plus sampled widths 17..256 at the boundaries. Within those bounds acceptance, emitted bits and error location are decided for every value; beyond them it is sampling.",
+         "Complete enumeration of every (uN/sN/iN/#dN, N <= 16, v in [-2^N-4, 2^N+4]) (quick: complete to N = 13, boundary neighbourhoods above) and of #dN with sized literals of every width, in rotating operand forms (at the boundaries: every form, including operators over sized operands and bitwise operators between one sized and one unsized operand), plus sampled widths 17..256 at the boundaries. Within those bounds acceptance, emitted bits and error location are decided for every value; beyond them it is sampling.",
          "`t {x: TYPE} => x` as the observation of the emitted bits; the four N = 0 rejections are listed known findings.",
          "6/C04"),
  "C05": ("exploration",
@@ -28,7 +28,7 @@ CHECKS = {
          "6/C02"),
  "C10": ("exploration",
          "metamorphic property testing over repetitions: the same job run on different threads, after random histories of other jobs, and in fresh processes of the real binary must give byte-identical records",
-         "Repetition of sampled jobs (generated programs with many sibling symbols/rules, multi-file 'twins' programs whose files share one byte layout, corpus, mutants, command lines with several invalid parameters) under varying hash seeds, threads and histories; the full record (success, printed diagnostics, every written file, and for the binary stdout/stderr/exit status) must be identical. Sampling of seeds and histories: a leak needing one particular seed can be missed.",
+         "Repetition of sampled jobs (generated programs with many sibling symbols/rules, multi-file 'twins' programs whose files share one byte layout, corpus, mutants, command lines with several invalid parameters, #bankdef blocks that answer with several diagnostics at once) under varying hash seeds, threads and histories; the full record (success, printed diagnostics, every written file, and for the binary stdout/stderr/exit status) must be identical. Sampling of seeds and histories: a leak needing one particular seed can be missed.",
          "Rust's per-map, per-thread, per-process HashMap seeding provides the schedule variation; nothing is trusted beyond the code itself.",
          "6/C10"),
  "C11": ("exploration",
@@ -53,7 +53,7 @@ CHECKS = {
          "6/C12"),
  "C13": ("exploration",
          "property-based fuzzing with a validity oracle on every diagnostic (byte range in a known file on character boundaries; printed line:column recomputed independently) + single-fault injection with a location oracle",
-         "Part A checks every message of every failing run of the mutated-corpus stream (non-ASCII, CR LF, truncated UTF-8) for location validity and for agreement between the printed line:column and the byte range; part B injects one fault of each kind at sampled positions of generated valid programs spread over files and demands that the first error lies on the faulty line of the right file. Exploration.",
+         "Part A checks every message of every failing run of the mutated-corpus stream (non-ASCII, CR LF, truncated UTF-8) for location validity and for agreement between the printed line:column and the byte range; part B injects one fault of each kind (including an invalid escape inside a generated string literal with multi-byte characters) at sampled positions of generated valid programs spread over files and demands that the first error lies on the faulty line of the right file. Exploration.",
          "Uses hook H1 (report message list). Malformed-directive, built-in-argument and asm-block faults are not covered by the reference model (their location is asserted directly); the missing-operand family, the ranges of diagnostics inside substituted asm-block text, and an earlier correct line being reported before a fault inside an unresolvable asm block are listed known findings.",
          "6/C13"),
  "C14": ("exploration",
@@ -74,7 +74,7 @@ CHECKS = {
  "C17": ("exploration",
          "metamorphic property testing: generated macro rules (asm blocks) vs. the generator's own hand-inlined program, generated functions vs. textual substitution and the reference evaluator, and recursion probes at depths around and far beyond the limit",
          "Random search over macro rules (textual {param} substitution with expression arguments, block-local labels, forward global labels, sub-rule operands, nesting to 3) and over #fn definitions; the macro program must assemble to the bits of the inlined program whenever the latter assembles; calls must equal substituted bodies and the reference value; recursion at depth <= 10 must succeed and at depth >= 100 must be an error (a dying worker is a violation). Exploration.",
-         "Base instruction sets for the macro part are size-static and carry no assert constraints (an assert on a forward label inside a block, a block label handed to a nested macro and labelalign inside blocks are listed known findings matched by input predicates); nothing is asserted when the hand-inlined program is itself rejected.",
+         "Base instruction sets for the macro part are size-static and carry no assert constraints, except a directed family of rules of different widths for one text (an assert on a forward label inside a block, a block label handed to a nested macro, labelalign inside blocks and a rule-body local handed through two asm-block levels are listed known findings matched by input predicates or directed probes); nothing is asserted when the hand-inlined program is itself rejected.",
          "6/C17"),
  "C19": ("fault_enumeration",
          "directed magnitude families run through the real binary in its own process under CPU / address-space / stack limits, with an outcome oracle (exit 0, or exit 1 with an error diagnostic; any signal, panic exit, CPU-limit or allocation abort is a violation)",
